@@ -773,7 +773,7 @@ Lemma list_eqb_refl a : list_eqb a a = true.
 Proof. induction a as [|x a IH]; [reflexivity|]. cbn [list_eqb]. rewrite N.eqb_refl, IH. reflexivity. Qed.
 
 Lemma matches_first sl name : matches sl name = true -> firstn 11 sl = name.
-Proof. unfold matches. apply list_eqb_true. Qed.
+Proof. intros H. exact (proj2 (matches_parts sl name H)). Qed.
 
 Lemma get8_firstn sl : get8 (firstn 11 sl) 0 = get8 sl 0.
 Proof. unfold get8. destruct sl; reflexivity. Qed.
@@ -790,6 +790,7 @@ Theorem C02_flush_then_lookup s h fi f vi v s1 dc bl sl0 :
   let e := f_entry f in
   (e_size e = 0 \/ e_cluster e <> 0) ->
   ts_ok (e_ctime e) -> ts_ok (e_mtime e) -> length (e_name e) = 11%nat ->
+  is_lfn (e_attr e) = false ->
   dir_blocks (s_disk s) v dc = Some bl ->
   find (t_matches (e_name e)) (live_in_blocks (s_disk s) bl) = Some (e_block e, e_offset e, sl0) ->
   length (disk_get (s_disk s) (e_block e)) = 512%nat ->
@@ -801,7 +802,7 @@ Theorem C02_flush_then_lookup s h fi f vi v s1 dc bl sl0 :
     s_disk s'' = s_disk s' /\
     slot (disk_get (s_disk s') (e_block e)) (e_offset e / 32) = ser_bytes (v_fat32 v) e.
 Proof.
-  intros Hnf Hc Hvok Hr Hd Hfv Hinfo e Hnp Hct Hmt Hname Hbl Hfind Hlen Hnfat Haway.
+  intros Hnf Hc Hvok Hr Hd Hfv Hinfo e Hnp Hct Hmt Hname Hnlfn Hbl Hfind Hlen Hnfat Haway.
   (* the slot found by the pre-state lookup *)
   pose proof (find_some _ _ Hfind) as [Hin Hmatch].
   apply In_live in Hin. destruct Hin as (b & i0 & Hb & Hi0 & Et & Hne).
@@ -827,7 +828,7 @@ Proof.
   rewrite Ei in Hslot, Hoth.
   assert (Hsw : slot_write (s_disk s1) (s_disk s') (e_block e) i0 (ser_bytes (v_fat32 v) e)).
   { split; [exact Hfr'|]. rewrite Hnew, Hold. split; [exact Hslot|exact Hoth]. }
-  destruct (ser_bytes_layout (v_fat32 v) e Hname) as (L0 & _ & _ & _ & _ & _ & _ & _ & _ & Lb).
+  destruct (ser_bytes_layout (v_fat32 v) e Hname) as (L0 & L11 & _ & _ & _ & _ & _ & _ & _ & Lb).
   pose proof (matches_first _ _ Hmatch) as Hfirst.
   assert (Hend : is_end (ser_bytes (v_fat32 v) e) = is_end (slot (disk_get (s_disk s1) (e_block e)) i0)).
   { unfold is_end. rewrite Lb, Hold, <- Es, <- Hfirst, get8_firstn. reflexivity. }
@@ -847,7 +848,7 @@ Proof.
       destruct (N.eqb_spec b (e_block e)) as [->|Eb]; [|reflexivity]. cbn [andb].
       destruct (N.eqb_spec (i * 32) (i0 * 32)) as [E2|E2]; [|reflexivity].
       assert (i = i0) by lia. subst i. cbn [snd].
-      rewrite <- Es, Hmatch. unfold matches. rewrite L0. apply list_eqb_refl. }
+      rewrite <- Es, Hmatch. unfold matches. rewrite L0, L11, Hnlfn. apply list_eqb_refl. }
   destruct (C06_find vi v dc (e_name e) s' bl (same_mgr_vol s s' vi v Hm' (proj2 Hfv)) Hvok Hnf' Hc' Hbl')
     as (s'' & Hlook & Hd'' & _).
   exists s''. rewrite Hlive in Hlook. split.
@@ -1535,6 +1536,27 @@ Proof.
   exists s'. split; [exact Hrun|]. split; [exact Hsw|exact Hb].
 Qed.
 
+(* C06, the repaired long-name defect at the level of the medium: a delete that succeeds set to 0xE5
+   the first byte of the slot the specification's lookup names, that slot is no long-name
+   fragment, and nothing else changed (PrDir.C06_delete_never_lfn is the hypothesis-free form) *)
+Corollary C06_delete_slot_not_lfn vi v dc name s bl s' :
+  nth_error (s_vols s) vi = Some v -> vol_ok v -> no_faults s -> cache_ok s ->
+  dir_blocks (s_disk s) v dc = Some bl -> (forall j, length (disk_get (s_disk s) j) = 512%nat) ->
+  delete_directory_entry vi dc name s = (Ok tt, s') ->
+  exists blk off sl0, find (t_matches name) (live_in_blocks (s_disk s) bl) = Some (blk, off, sl0) /\
+    is_lfn (get8 sl0 11) = false /\ firstn 11 sl0 = name /\
+    s_disk s' = disk_set (s_disk s) blk (set_bytes (disk_get (s_disk s) blk) off [229]).
+Proof.
+  intros Hvi Hv Hnf Hc Hbl Hwf Hdel.
+  pose proof (delete_directory_entry_spec vi v dc name s bl Hvi Hv Hnf Hc Hbl) as H.
+  destruct (find (t_matches name) (live_in_blocks (s_disk s) bl)) as [[[blk off] sl0]|] eqn:Hfind.
+  - destruct (H (Hwf blk)) as (s'' & Hrun & Hd & _). rewrite Hrun in Hdel. injection Hdel as <-.
+    exists blk, off, sl0. split; [reflexivity|].
+    destruct (find_matches_not_lfn _ _ _ Hfind) as [A B]. cbn [snd] in A, B.
+    split; [exact A|]. split; [exact B|exact Hd].
+  - destruct H as (s'' & Hrun & _). rewrite Hrun in Hdel. discriminate Hdel.
+Qed.
+
 (* ---- close_file = flush_file, then the handle is dropped: the device is as after the flush ---- *)
 Theorem close_file_after_flush s h fi f s' :
   resolves s h fi f -> flush_file h s = (Ok tt, s') -> same_mgr s s' ->
@@ -1565,6 +1587,7 @@ Example flush_example :
   info_step exe_state 0 exd_vol exe_state /\
   (e_size exe_entry = 0 \/ e_cluster exe_entry <> 0) /\
   ts_ok (e_ctime exe_entry) /\ ts_ok (e_mtime exe_entry) /\ length (e_name exe_entry) = 11%nat /\
+  is_lfn (e_attr exe_entry) = false /\
   dir_blocks (s_disk exe_state) exd_vol 2 = Some [30; 31; 32; 33] /\
   (exists sl0, find (t_matches (e_name exe_entry)) (live_in_blocks (s_disk exe_state) [30; 31; 32; 33])
                = Some (e_block exe_entry, e_offset exe_entry, sl0)) /\
@@ -1579,7 +1602,7 @@ Proof.
   split; [apply info_step_none; [exact Hnf|exact Hc|reflexivity|left; reflexivity]|].
   split; [right; discriminate|].
   split; [apply ts_from_fat_ok|]. split; [apply ts_cal_ok, clock_ts_cal|].
-  split; [reflexivity|]. split; [vm_compute; reflexivity|].
+  split; [reflexivity|]. split; [vm_compute; reflexivity|]. split; [vm_compute; reflexivity|].
   split; [eexists; vm_compute; reflexivity|].
   split; [vm_compute; reflexivity|].
   split; [apply exd_not_fat; vm_compute; discriminate|]. intros H; discriminate H.
@@ -1668,6 +1691,7 @@ Print Assumptions info_step_fat32.
 Print Assumptions slots_of_upd.
 Print Assumptions live_upd.
 Print Assumptions C02_flush_then_lookup.
+Print Assumptions C06_delete_slot_not_lfn.
 Print Assumptions C02_flush_ctime_bytes.
 Print Assumptions C02_untouched_frame_step.
 Print Assumptions C02_untouched_frame_flush.
